@@ -72,11 +72,18 @@ func addC13Patch(run *Run, t *Val, dw string) {
 		v = "fail Patch panicked"
 	}
 	c.Probes = append(c.Probes,
-		Probe{Kind: "corr", Rel: "Patch = patchM (hostile diffs)", Line: fmt.Sprintf("patch %s %s", tw, dw), Want: out},
+		Probe{Kind: "corr", Rel: "Patch panics = patchM panics (hostile diffs)", Line: fmt.Sprintf("patchpanics %s %s", tw, dw), Want: panicClass(out)},
 		Probe{Kind: "direct", Rel: "C13 Patch returns a result or an error, never panics", Want: v},
 	)
 	run.Count("patch_outcome:" + strings.Fields(out)[0])
 	run.Add(c)
+}
+
+func panicClass(out string) string {
+	if out == "panic" {
+		return "panic"
+	}
+	return "nopanic"
 }
 
 func hostileText(r *Rng, cfg GenCfg) string {
@@ -186,7 +193,7 @@ func addC13Text(run *Run, text string, t *Val) {
 		c.Probes = append(c.Probes, Probe{Kind: "direct", Rel: "C13 " + rd.name + " returns a result or an error, never panics", Want: v})
 		run.Count(rd.name + ":" + strings.Fields(out)[0])
 		if rd.op != "" && valid && !strings.ContainsAny(text, "\x00") {
-			c.Probes = append(c.Probes, Probe{Kind: "corr", Rel: rd.name + " = model reader (accept / reject / value)", Line: fmt.Sprintf("%s %s %s", rd.op, nd, textWire(text)), Want: out})
+			c.Probes = append(c.Probes, Probe{Kind: "corr", Rel: rd.name + " = model reader (accept / reject / panic class)", Line: fmt.Sprintf("%s %s %s", rd.op+"class", nd, textWire(text)), Want: strings.Fields(out)[0]})
 		}
 		if strings.HasPrefix(out, "ok <") {
 			c.Nontrivial = true
@@ -197,7 +204,7 @@ func addC13Text(run *Run, text string, t *Val) {
 				pv = "fail Patch panicked on a diff read by " + rd.name
 			}
 			c.Probes = append(c.Probes,
-				Probe{Kind: "corr", Rel: "Patch = patchM (diffs read from hostile text)", Line: fmt.Sprintf("patch %s %s", tw, dw), Want: po},
+				Probe{Kind: "corr", Rel: "Patch panics = patchM panics (diffs read from hostile text)", Line: fmt.Sprintf("patchpanics %s %s", tw, dw), Want: panicClass(po)},
 				Probe{Kind: "direct", Rel: "C13 Patch of a read diff never panics", Want: pv})
 			// renderers on read diffs must not panic
 			rv := "ok"
